@@ -22,11 +22,11 @@ impl Read for Src {
         buf[0] = self.data[self.pos]; self.pos += 1; self.pulled.fetch_add(1, Ordering::SeqCst); Ok(1)
     }
 }
-struct Sink { data: Vec<u8>, fail_at: Option<usize> }
+struct Sink { data: Vec<u8>, fail_at: Option<usize>, kind: std::io::ErrorKind }
 impl Write for Sink {
     fn write(&mut self, buf: &[u8]) -> std::io::Result<usize> {
         if let Some(k) = self.fail_at {
-            if self.data.len() >= k { return Err(std::io::Error::new(std::io::ErrorKind::Other, "injected write failure")); }
+            if self.data.len() >= k { return Err(std::io::Error::new(self.kind, "injected write failure")); }
             let room = k - self.data.len();
             let n = room.min(buf.len());
             self.data.extend_from_slice(&buf[..n]);
@@ -42,8 +42,9 @@ fn main() {
     let args: Vec<String> = std::env::args().collect();
     let mut input = Vec::new(); std::io::stdin().read_to_end(&mut input).unwrap();
     let cli = match jawk::Cli::try_parse_from(args) { Ok(c) => c, Err(e) => { println!("result=cli-error {}", e.kind()); return; } };
-    let out = Rc::new(RefCell::new(Sink { data: vec![], fail_at: envn("FAIL_WRITE_AT") }));
-    let err = Rc::new(RefCell::new(Sink { data: vec![], fail_at: None }));
+    let kind = match std::env::var("FAIL_WRITE_KIND").as_deref() { Ok("brokenpipe") => std::io::ErrorKind::BrokenPipe, Ok("interrupted") => std::io::ErrorKind::Interrupted, Ok("wouldblock") => std::io::ErrorKind::WouldBlock, _ => std::io::ErrorKind::Other };
+    let out = Rc::new(RefCell::new(Sink { data: vec![], fail_at: envn("FAIL_WRITE_AT"), kind }));
+    let err = Rc::new(RefCell::new(Sink { data: vec![], fail_at: None, kind: std::io::ErrorKind::Other }));
     let pulled = Arc::new(AtomicUsize::new(0)); let p2 = pulled.clone();
     let fail_at = envn("FAIL_READ_AT"); let endless = std::env::var("ENDLESS").is_ok(); let limit = envn("ENDLESS_LIMIT").unwrap_or(1_000_000);
     let r = std::panic::catch_unwind(std::panic::AssertUnwindSafe(|| {
